@@ -119,8 +119,16 @@ pub fn template(kind: usize, outputs: usize) -> Template {
     } else {
         "    output first {\n        to: Receiver,\n        amount: Ada(quantity),\n    }\n".to_string()
     };
+    // everything else a transaction body can carry rides along in some of the templates: required signers
+    // (one or two), a validity interval, metadata - the fee has to be the fee of the payload whatever is in it
+    let riders = match (kind / 5 + outputs) % 4 {
+        1 => "    signers {\n        Sender,\n    }\n".to_string(),
+        2 => "    signers {\n        Sender,\n        0x0f0f0f0f0f0f0f0f0f0f0f0f0f0f0f0f0f0f0f0f0f0f0f0f0f0f0f0f,\n    }\n    metadata {\n        674: \"rider\",\n    }\n".to_string(),
+        3 => "    validity {\n        until_slot: 200000000,\n    }\n".to_string(),
+        _ => String::new(),
+    };
     let src = format!(
-        "party Sender;\nparty Receiver;\n\ntx t(quantity: Int) {{\n    input source {{\n        from: Sender,\n        min_amount: {min_amount},\n    }}\n{first}{extra}    output change {{\n        to: Sender,\n        amount: {change},\n    }}\n}}\n"
+        "party Sender;\nparty Receiver;\n\ntx t(quantity: Int) {{\n    input source {{\n        from: Sender,\n        min_amount: {min_amount},\n    }}\n{first}{extra}    output change {{\n        to: Sender,\n        amount: {change},\n    }}\n{riders}}}\n"
     );
     Template { src, tx: "t".into() }
 }
